@@ -412,8 +412,8 @@ def run_engine(ctx, cases):
     alone with a long quiet period before they are believed)"""
     impl, model = vlib.rust_bin("srvmsg"), vlib.model_bin("server")
     lines = ["%s %s %s" % (t, c, m.hex() or "-") for t, c, m in cases]
-    http = [i for i, (t, _, _) in enumerate(cases) if t == "http"]
-    ws = [i for i, (t, _, _) in enumerate(cases) if t != "http"]
+    http = [i for i, (t, _, _) in enumerate(cases) if t.startswith("http")]
+    ws = [i for i, (t, _, _) in enumerate(cases) if not t.startswith("http")]
     ri = [None] * len(cases)
     for idx, shard in ((http, 150), (ws, 12)):
         res = vlib.run_lines([impl], [lines[i] for i in idx], min_shard=shard)
